@@ -38,6 +38,15 @@ CHECKS = {
         "note": "Trusted: TLC; the abstraction of byte code to index-addressed instructions in the harness; the two guarded hooks.",
         "technique": "TLA+ transcription model-checked exhaustively (small scope) + artefact validation of real optimizer in/out pairs + twin runs",
     },
+    "C14": {
+        "text": ("TengoSem records the innermost executing statement and the stack of call-site statements of every run-time error (it has no "
+                 "offsets, source maps or frames). For failing programs (every failing operation kind x call depth 0-4 x statement form, next to "
+                 "dead code) the positions in the real error text must lie inside the extents of exactly those statements, innermost first; "
+                 "the no-DCE twin must report the same text."),
+        "design_ref": "DESIGN.md 8/C14",
+        "note": "Trusted: TLC; statement extents from the harness printer; error classes via errors.Is / fixed prefixes. Module files: not yet covered.",
+        "technique": "TLA+ reference semantics predicts failing statement and call stack; real error positions validated by containment",
+    },
     "C07": {
         "text": ("TLC checks RunContext.tla (PlusCal model of Compiled.RunContext + VM abort protocol) over all interleavings of "
                  "caller/runner/canceller for every program shape and length <= 8: safety (right return value, <=1 instruction after "
